@@ -255,9 +255,29 @@ def run(tier, seed):
     ws = core.Workspace(PROP, "x")
     # a concrete-deps fn that returns a future without being `async fn`: the leaf trait's Impl<T> forwarding has to reach the fn
     # when the method is *called* (the part of the body in front of the `async move` block), not when the future is polled
+    # concrete types that borrow (`Ctx<'_>`, a tuple with a reference) over data that is not 'static: the leaf is implemented for
+    # `C` itself, without any requirement on `C` beyond what the fn has
+    def borrowing_case(cid, is_async):
+        a, w = ("async ", lambda c: "::vrt::block_on(%s)" % c) if is_async else ("", lambda c: c)
+        src = """pub struct Ctx<'a> { pub name: &'a str }
+#[::entrait::entrait(pub Subj)] /*@inv*/
+%sfn subj(ctx: &Ctx<'_>, k: usize) -> usize { ctx.name.len() * k }
+#[::entrait::entrait(pub PairLen)]
+%sfn pair_len(pair: &(&str, usize)) -> usize { pair.0.len() + pair.1 }
+pub fn run() {
+    let owned = ::std::string::String::from("local");
+    let ctx = Ctx { name: &owned };
+    ::vrt::phase("borrowing");
+    ::vrt::kv("direct", %s); ::vrt::kv("on_c", %s);
+    let pair = (&*owned, 3usize);
+    ::vrt::kv("pair_direct", %s); ::vrt::kv("pair_on_c", %s);
+}
+""" % (a, a, w("subj(&ctx, 2)"), w("ctx.subj(2)"), w("pair_len(&pair)"), w("pair.pair_len()"))
+        return Case(cid, src, meta={"family": "borrowing", "nontrivial": True})
+    borrowing = [borrowing_case("c05b_0", False), borrowing_case("c05b_1", True)]
     from .c06 import eager_future_case, check_eager_future
     eager = [eager_future_case("c05e_%03d" % i, rng, shape="concrete_fn") for i in range(4)]
-    ws.extend(cases + eager + pins + [st])
+    ws.extend(cases + eager + borrowing + pins + [st])
     ws.write()
     b = ws.build()
     ws.run(b["exes"])
@@ -266,9 +286,21 @@ def run(tier, seed):
         check_case(c, rep)
     for c in eager:
         check_eager_future(c, rep)
+    for c in borrowing:
+        if c.removed is not None:
+            d = (c.removed["diags"] or [{}])[0]
+            rep.violation(c.id, "borrowing:compile:%s" % d.get("code"), "a leaf over a borrowing concrete type cannot be used on a value that borrows local data: %s" % d.get("message", "")[:300])
+            continue
+        rec = c.runrec.get("bin") or {}
+        kv = dict({p_["label"]: p_ for p_ in rec.get("phases", [])}.get("borrowing", {}).get("kv", {}))
+        if kv != {"direct": "10", "on_c": "10", "pair_direct": "8", "pair_on_c": "8"}:
+            rep.violation(c.id, "borrowing:behaviour", "results %s" % kv)
+        else:
+            rep.bump("borrowing_cases_ok")
+        rep.count(c.sig(), True)
     for c in pins:
         if c.removed is not None:
             d = (c.removed["diags"] or [{}])[0]
             rep.violation(c.id, "compile:%s:%s" % (d.get("code"), d.get("message", "")[:70]), "does not compile: %s" % d.get("message", "")[:300], pinned=c.meta["pin"])
     core.floors(rep, calls_compared=3 * n, availability_probes=4 * n)
-    return rep.finish({c.id: c for c in cases + eager + pins})
+    return rep.finish({c.id: c for c in cases + eager + borrowing + pins})
